@@ -68,10 +68,11 @@ class Obj:
 
 
 class Out:
-    __slots__ = ('kind', 'st', 'val')
+    __slots__ = ('kind', 'st', 'val', 'tag', 'its')
 
     def __init__(self, kind, st, val=None):
         self.kind, self.st, self.val = kind, st, val
+        self.tag, self.its = None, None
 
 
 class State:
@@ -134,7 +135,7 @@ BUILTIN_TYPES = ['object', 'type', 'int', 'str', 'bytes', 'bool', 'float', 'tupl
                  'OrderedDict', 'ChainMap']
 BUILTIN_FUNCS = ['len', 'isinstance', 'issubclass', 'type', 'callable', 'getattr', 'setattr', 'delattr', 'hasattr', 'id', 'sorted',
                  'zip', 'enumerate', 'reversed', 'range', 'sum', 'max', 'min', 'iter', 'next', 'repr', 'hash', 'print', 'any', 'all',
-                 'map', 'filter', 'open', 'super', 'bbrepr', 'bbformat', 'format_invocation', 'same', 'subseq', 'old']
+                 'map', 'filter', 'open', 'super', 'bbrepr', 'bbformat', 'format_invocation', 'same', 'subseq', 'old', 'assume']
 
 
 class Config:
@@ -145,10 +146,12 @@ class Config:
         self.loop_contracts = {}   # (function name, ordinal) -> dict
         self.hooks = {}            # name -> callable, e.g. 'after_G'
         self.scope_keys = set()    # names of scope keys assumed present (ScopeInv)
+        self.frame_keys = set()    # keys bound in every scope frame's own dict (FrameInv)
         self.max_inline_depth = 6
         self.opaque_globals = {}   # module-global name -> SV factory (symbolic configuration inputs)
         self.pure_builtins = set()
         self.extern = {}           # dotted external function name -> handler(ex, st, args) -> outcomes
+        self.summary_result_tags = {}  # summary name -> type tag of its result
         self.class_attr_models = {}  # 'core.Path._CACHE' -> callable(ex, st) -> outcomes (modelled class-level state)
         self.scope_key_types = {}  # scope key constant name -> type tag of the bound value
         self.unroll_while = {}     # (function, ordinal) -> bound, for while loops over statically bounded data
@@ -175,8 +178,13 @@ class Executor:
             fs = z3.Solver()
             fs.set('rlimit', 400000)
             fs.add(*bf)
-            cache = _SHARED[id(facts)] = (bf, fs, facts)
-        self.base_facts, self.feas = cache[0], cache[1]
+            sub = {}
+            for a in facts.class_names:
+                for b in facts.class_names:
+                    f = Z.subclass(self.cls_const(a), self.cls_const(b))
+                    sub[(a, b)] = f if facts.issub(a, b) else z3.Not(f)
+            cache = _SHARED[id(facts)] = (bf, fs, facts, sub)
+        self.base_facts, self.feas, self.sub_fact = cache[0], cache[1], cache[3]
         self.cur_func = None
         self.loop_ord = {}
         self.stats = {'paths': 0, 'feas_checks': 0}
@@ -218,7 +226,12 @@ class Executor:
         if key in st.seen:
             return
         st.seen.add(key)
-        names = self.facts.class_names
+        if not hasattr(self, '_rel_classes'):
+            core = {'object', 'type', 'dict', 'list', 'tuple', 'str', 'set', 'frozenset', 'OrderedDict', 'int', 'bool', 'bytes', 'NoneType'}
+            self._rel_classes = [n for n in self.facts.class_names if n in core or self.facts.issub(n, 'BaseException')
+                                 or n in ('core.TType', 'core.Spec', 'core.Path', 'matching.Required', 'matching.Optional', 'matching.Check',
+                                          'matching._MSubspec', 'matching._MExpr', 'matching._MType', 'matching.And', 'matching.Or', 'matching.Not')]
+        names = self._rel_classes
         for a in names:
             for b in names:
                 if a != b and self.facts.issub(a, b):
@@ -358,8 +371,16 @@ class Executor:
         """mark a term as denoting an object that existed before this execution started"""
         st.add(Z.birth(term) < z3.Int('clock0'))
 
+    def refkey(self, t):
+        if z3.is_const(t) and t.decl().kind() == z3.Z3_OP_UNINTERPRETED:
+            return t.decl().name()
+        return None
+
     def local(self, st, v):
-        return st.objs.get(str(v.v)) if v.k == 'ref' and v.t is not None else None
+        if v.k != 'ref' or v.t is None or not st.objs:
+            return None
+        k = self.refkey(v.v)
+        return st.objs.get(k) if k is not None else None
 
     def publish(self, st, v):
         """a fresh object escapes: move its model into the global arrays (and into the token for opaque consumers)"""
@@ -372,10 +393,10 @@ class Executor:
             if clo.selfsv is not None:
                 self.publish(st, clo.selfsv)
             return
-        if v.k != 'ref':
+        if v.k != 'ref' or not st.objs:
             return
-        key = str(v.v)
-        o = st.objs.pop(key, None)
+        key = self.refkey(v.v)
+        o = st.objs.pop(key, None) if key is not None else None
         if o is None:
             return
         ref = v.v
@@ -433,7 +454,6 @@ class Executor:
                 if flag:
                     kt = Z.klass(exc)
                     s2.add(Z.subclass(kt, self.cls_const('BaseException')), exc != Z.NONE)
-                    self.class_term_facts(s2, kt)
                     self.import_value(s2, exc)
                     outs.append(('raise', s2, sv_ref(exc)))
                 else:
@@ -477,7 +497,6 @@ class Executor:
             if flag:
                 kt = Z.klass(exc)
                 s2.add(Z.subclass(kt, self.cls_const('BaseException')), exc != Z.NONE)
-                self.class_term_facts(s2, kt)
                 self.import_value(s2, exc)
                 if hook:
                     hook(self, s2, name, args, terms, before, tok_before, 'raise', exc)
